@@ -194,24 +194,27 @@ CHECKS = {
   note=NOTE_COMMON + " Self-consistent leniencies of the library (reserved flag bits, trailing bytes, ...) are modelled as they are and listed in DESIGN.md.",
   technique="Coq proofs about a total reference decoder (canonicity of accepted integers/fields) + catch_unwind monitor on exhaustive and mutated inputs + differential correspondence"),
  "C01": dict(
-  text="PARTIAL. Decided on pairs of REAL objects: a Client and a Server GenericConnection wired by two byte queues under seeded workloads from both "
-       "sides, arbitrary delivery interleaving and fragmentation, and transport losses at arbitrary points (incl. mid-frame) with persistent-"
-       "session resumption; the monitor requires no panic and no error event on either side, that the exchange comes to rest, QoS2 exactly once / "
-       "QoS1 at least once (exactly once without loss) / QoS0 at most once with the original topic and payload, and at rest all identifiers "
-       "free, stores empty, full vacancy on both sides; both objects are tied to the model by the full-digest correspondence. Coq theorems "
-       "(Closed under the global context) are the per-endpoint facts the pair property rests on, for all states: fragmentation independence "
-       "(C09), a transport loss leaves nothing of the cut connection behind and keeps a persistent session (C10), unmatched acknowledgements "
-       "are protocol errors (C06); and of the PAIR, for every sender state satisfying the ownership invariant and every established "
-       "receiver state (v3.1.1, and v5.0 with no topic alias in play and the packets within the negotiated limits; automatic responses, intact link): one QoS 1 exchange and one QoS 2 exchange complete - PUBLISH requested, "
-       "notified exactly once, every acknowledgement requested by one side is accepted by the other, the identifier is released at the end "
-       "and nothing of the exchange stays behind (v5.0: the Receive Maximum slot is given back), no call panics (C01_pair_qos1_completes, "
-       "C01_pair_qos2_completes, ..._v5), tied to step by C01_send_call_is_send_publish / C01_recv_call_is_deliver (..._v5); and ANY NUMBER of QoS 1/2 messages in sequence (v3.1.1; v5.0 with Receive Maximum and Maximum Packet Size negotiated) with "
-       "identifier reuse are delivered exactly once each, in order, with no failure of any kind and both Receive Maximum accounts back at "
-       "zero, by induction on a pair invariant (C01_pair_sequence_exactly_once, ..._v5, about the executable runs run_seq / run_seq5). A pair invariant with a termination measure for arbitrarily many concurrent "
-       "exchanges in flight, delivery interleavings and loss points is NOT proved (C01_partial): that is the monitor's part.",
-  ref="DESIGN.md §3 C01",
+  text="PARTIAL. Coq theorems (Closed under the global context) about the PAIR of models: (1) several exchanges in flight - two v3.1.1 "
+       "endpoints with automatic responses, two FIFO links, ANY schedule of 'the application publishes a QoS 1/2 message' / 'the link hands "
+       "the next packet to the receiver' / '... to the sender': no call panics or reports an error, every packet is answered as the protocol "
+       "says, the pair invariant (packets in flight <-> awaited sets and handled set, identifiers in flight distinct, published = delivered "
+       "++ PUBLISHes in flight) holds throughout, and after at most [measure] further rounds both links are empty and the messages "
+       "notified are exactly the published ones, once each, in order (C01_pair_every_schedule_succeeds, C01_pair_concurrent_exactly_once: "
+       "pair invariant + termination measure); (2) any sequence of exchanges with identifier reuse, v3.1.1 and v5.0, the v5.0 Receive "
+       "Maximum accounts back at zero after each (C01_pair_sequence_exactly_once, ..._v5); (3) single QoS 1/2 exchanges from every admissible "
+       "pair of states, both versions (C01_pair_qos1_completes, ...), all tied to step by C01_send_call_is_send_publish / "
+       "C01_recv_call_is_deliver (..._v5); (4) the per-endpoint facts: fragmentation independence (C09), a transport loss leaves nothing of the "
+       "cut connection behind and keeps a persistent session (C10), unmatched acknowledgements are protocol errors (C06). NOT proved "
+       "(C01_partial): transport LOSS and session resumption inside the pair theorem, manual responses, v5.0 with several exchanges in flight "
+       "or topic aliases. Those, and the tie to the code, are decided on pairs of REAL objects: a Client and a Server GenericConnection "
+       "wired by two byte queues under seeded workloads from both sides, arbitrary delivery interleaving and fragmentation, and transport "
+       "losses at arbitrary points (incl. mid-frame) with persistent-session resumption; the monitor requires no panic and no error event on "
+       "either side, that the exchange comes to rest, QoS2 exactly once / QoS1 at least once (exactly once without loss) / QoS0 at most once "
+       "with the original topic and payload, and at rest all identifiers free, stores empty, full vacancy on both sides; both objects are tied "
+       "to the model by the full-digest correspondence.",
+  ref="DESIGN.md §3 C01, §10.3",
   note=CONN_NOTE + " C01 replays re-run the seeded scheduler of the case on the current implementation (no shrinking).",
-  technique="system-level monitor on pairs of implementation objects + full-digest correspondence with the Coq model + per-endpoint Coq theorems and pair theorems (QoS 1/2 completion, v3.1.1 and v5.0; sequences of exchanges by induction on a pair invariant)"),
+  technique="Coq pair theorems (pair invariant + termination measure over arbitrary schedules on intact links; sequences; single exchanges) + system-level monitor on pairs of implementation objects with losses + full-digest correspondence with the Coq model"),
  "C12": dict(
   text="Coq theorems, Closed under the global context, for every state and every M: the vacancy getter is M minus the counter saturating at "
        "zero (never wraps or panics); a QoS>0 PUBLISH arriving when the peer already has the announced maximum outstanding is answered "
